@@ -864,8 +864,8 @@ def run_chunk(spec):
     res = Result()
     tier, ci = spec["tier"], spec["chunk"]
     wd = Watchdog(res, 120.0)
-    n_async = 50 if tier == "quick" else 2500
-    n_sync = 6 if tier == "quick" else 120
+    n_async = 50 if tier == "quick" else 20000
+    n_sync = 6 if tier == "quick" else 700
     base = ci * 100000
     for j in range(n_async):
         idx = base + j
